@@ -21,6 +21,11 @@ CHECKS = {
          "All 12 383 (quick) / 136 k (thorough) grammars over {S,A}x{a,b} with <=3/<=4 productions, all 41 727 / 637 k grammars over {S,A,B}x{a}, a zoo of 32 textbook grammars, each with all strings up to length 5-8: conflict report agrees with a plain canonical LR(1) construction, conflict-free => accept iff member, tree is a derivation, error index/expected set = viable-prefix oracle, no string with two derivations. Emboss grammar (module and expression start symbols): all 24 035 states via shortest access strings x all terminals + end of input against Earley; all 235 506 non-error action entries exercised.",
          "Trusted: vk/cfg.py (language/derivation/viable-prefix fixpoints, plain LR(1)), vk/earley.py; cross-checked against each other on every run. Viable-prefix clause compared only on reduced grammars. Strings are bounded in length.",
          "DESIGN.md section 3, C08"),
+ "C10": ("model_checking",
+         "exhaustive enumeration of all short texts over a boundary alphabet and explicit-state exploration of the indentation stack, run through the real tokenizer against a tokenizer rebuilt from doc/grammar.md",
+         "Every single-line string up to length 5 (quick) / 6 (thorough) over a 22-character boundary alphabet, all strings <=2/3 over printable ASCII, all literal/pattern examples extended and paired, all <=4/5-line indentation sequences (open-indentation stacks as explicit states), all numeric shapes over {0,1,_} x {'',0x,0b,0X,0B} up to 9/11 characters, all name shapes, all 11 line terminators: the real token list (symbols, texts, line/column ranges) equals that of a reference tokenizer built from the documented pattern table; slices, gaps, newline and Indent/Dedent invariants checked directly; error iff reference error at the same location; Number/name classes equal the language reference's prose rules.",
+         "Trusted: vk/tokref.py, vk/grammardoc.py. Texts are bounded in length; characters outside the alphabets are covered only by the ASCII/extension sweeps.",
+         "DESIGN.md section 3, C10"),
 }
 NOT_YET = "check not built yet in this round (planned in DESIGN.md section 3); no claim made"
 
